@@ -6,6 +6,15 @@ here="$(cd "$(dirname "$0")" && pwd)"
 out="$here/gen/c09"
 mkdir -p "$out"
 cd "$out"
+# nothing to do when the runner is newer than everything it is extracted / built from
+if [ -x c09_runner ]; then
+  stale=0
+  for f in "$here"/../coq/model/C09_*.vo "$here"/../coq/lib/C09Bytes.vo "$here"/../coq/lib/Imp.vo \
+           "$here"/../coq/gen/Varint*.vo "$here"/c09_extract.v "$here"/c09_driver.ml "$here"/build_c09.sh; do
+    if [ ! -e "$f" ] || [ "$f" -nt c09_runner ]; then stale=1; fi
+  done
+  if [ $stale = 0 ]; then echo "$out/c09_runner"; exit 0; fi
+fi
 rm -f c09_model.ml c09_model.mli c09_runner
 timeout 300 coqc -Q "$here/../coq/lib" Verif -Q "$here/../coq/model" Verif -Q "$here/../coq/gen" Verif \
   -o "$out/c09_extract.vo" "$here/c09_extract.v" > extract.log 2>&1 || { cat extract.log; exit 1; }
